@@ -333,6 +333,22 @@ func (w *World) Seq(reqs []proto.Req) ([]proto.Resp, error) {
 	return res.Resps, nil
 }
 
+// SeqFast issues requests one after another with no scheduling decisions at all
+// (bulk filler work whose interleaving is irrelevant).
+func (w *World) SeqFast(reqs []proto.Req) ([]proto.Resp, error) {
+	res, err := w.Batch(reqs, "seqfast")
+	if err != nil {
+		return nil, err
+	}
+	if res.Wedged {
+		return nil, w.wedgeOrHung("seqfast "+reqs[0].Method+" "+reqs[0].URL, res.Stacks)
+	}
+	if err := w.Barrier(); err != nil {
+		return nil, err
+	}
+	return res.Resps, nil
+}
+
 func GET(url string) proto.Req  { return proto.Req{Client: "c0", Kind: "http", Method: "GET", URL: url} }
 func HEAD(url string) proto.Req { return proto.Req{Client: "c0", Kind: "http", Method: "HEAD", URL: url} }
 func POST(url string, body []byte) proto.Req {
